@@ -81,7 +81,34 @@ def _ref_uuid(v):
         return None
 
 
+def _ref_float(lo=None, hi=None, finite=True):
+    """Documented: min / max reject values outside the bounds; finite=False additionally matches nan, inf, -inf (a NaN
+    compares false with every bound, so only the infinities can violate one)."""
+    import math
+
+    def conv(v):
+        if v.strip() != v:
+            return None
+        try:
+            x = float(v)
+        except ValueError:
+            return None
+        if finite and not math.isfinite(x):
+            return None
+        if lo is not None and x < lo:
+            return None
+        if hi is not None and x > hi:
+            return None
+        return x
+    return conv
+
+
 REF_CONVERTERS = {
+    ('float', None): _ref_float(),
+    ('float', 'max=100'): _ref_float(None, 100),
+    ('float', 'finite=False'): _ref_float(None, None, False),
+    ('float', 'max=100,finite=False'): _ref_float(None, 100, False),
+    ('float', 'min=-5,finite=False'): _ref_float(-5, None, False),
     ('int', None): _ref_int(),
     ('int', '2'): _ref_int(2),
     ('int', 'min=1,max=9'): _ref_int(None, 1, 9),
@@ -218,6 +245,8 @@ def _seg_templates():
     out = []
     for n in NAMES[:2]:
         out += ['{%s}' % n, '{%s:int}' % n, '{%s:int(2)}' % n, '{%s:int(min=1,max=9)}' % n, '{%s:uuid}' % n, '{%s:ab}' % n]
+    out += ['{f:float}', '{g:float(max=100)}', '{f:float(finite=False)}', '{g:float(max=100,finite=False)}',
+            '{h:float(min=-5,finite=False)}']
     out += ['{f}-{g}', '{f}.{g}', 'x{f}', '{f:int}x{g}', '{f}\\d', '{h}-{k}', 'x{h:ab}', 'a{b}', '{f}x', '{g:int}-{h}']
     return out
 
@@ -240,6 +269,8 @@ def _fillers(cname, arg):
         if arg:
             return ['5', '0', '12']
         return ['7', '007', ' 7', 'x']
+    if cname == 'float':
+        return ['1.5', 'inf', '-inf', 'nan', '1e3', '50', ' 5', 'x']
     if cname == 'uuid':
         return [UUID_OK, 'x']
     if cname == 'ab':
@@ -339,7 +370,8 @@ def same(a, b):
     pa, pb = a[2], b[2]
     if set(pa) != set(pb):
         return False
-    return all(type(pa[k]) is type(pb[k]) and pa[k] == pb[k] for k in pa)
+    return all(type(pa[k]) is type(pb[k]) and (pa[k] == pb[k] or (type(pa[k]) is float and pa[k] != pa[k] and pb[k] != pb[k]))
+               for k in pa)
 
 
 _FIELD_NAME = re.compile(r'{([^}:]*)', re.S)
@@ -520,11 +552,12 @@ class Histories(Suite):
 
 
 POOL = ['/a', '/{f}', '/a/{g}', '/a/b', '/{f}/b', '/{f:int}/b', '/{f}-{g}', '/a/{g:path}', '/{f:ab}/{h}', '/x{f}/b',
-        '/{f:int}x{g}', "/it's/{h}", '/a\\b/{h}', '/{f}/{k:path}/x', '/a/{h}/zz', '/{f}/b/7', '/b/{g:rest}']
+        '/{f:int}x{g}', "/it's/{h}", '/a\\b/{h}', '/{f}/{k:path}/x', '/a/{h}/zz', '/{f}/b/7', '/b/{g:rest}',
+        '/{g:float(max=100,finite=False)}/b']
 
 
 class PoolEnum(Suite):
-    """Exhaustive: every ordered selection of <= 2 (quick) / <= 3 (thorough) templates from a 17-template pool (incl.
+    """Exhaustive: every ordered selection of <= 2 (quick) / <= 3 (thorough) templates from an 18-template pool (incl.
     one unacceptable template and literals with quote / backslash) x both compile flags on the last add, all
     representative paths."""
 
